@@ -97,6 +97,33 @@ def number(block):
     return go(block)
 
 
+def families(infn):
+    """targeted shapes beyond the exhaustive bound: an interrupt of the OUTER loop inside the else clause of an inner
+    loop, interrupts below nested ifs followed by further statements, several guards in one block, loops in branches"""
+    A = ("atom", 0)
+    ints = [("brk",), ("cont",)] + ([("ret", 0), ("ret", None)] if infn else [])
+    out = []
+    loops = ("while", "for")
+    for X in ints:
+        for L1 in loops:
+            for L2 in loops:
+                # else clause of the inner loop holds a conditional interrupt of the outer loop, then more statements
+                out.append([(L1, 0, [(L2, 0, [A], [("if", 0, [X], []), A]), A], [A])])
+                out.append([(L1, 0, [(L2, 0, [("if", 0, [("brk",)], []), A], [("if", 0, [X], []), A]), A], [])])
+                out.append([(L1, 0, [(L2, 0, [A], [("if", 0, [A], [X]), A, ("if", 0, [X], []), A])], [A])])
+            # nested ifs: the interrupt two levels down, statements after each level
+            out.append([(L1, 0, [("if", 0, [("if", 0, [X], []), A], []), A], [A])])
+            out.append([(L1, 0, [("if", 0, [A], [("if", 0, [X], []), A]), A], [])])
+            out.append([(L1, 0, [("if", 0, [("if", 0, [A], [X]), A], [("if", 0, [X], [A]), A]), A, ("if", 0, [X], []), A], [A])])
+            out.append([(L1, 0, [("if", 0, [("if", 0, [("if", 0, [X], []), A], []), A], []), A], [])])
+            # an inner loop inside a branch, its own break, then an outer interrupt
+            out.append([(L1, 0, [("if", 0, [("while", 0, [("if", 0, [("brk",)], []), A], [A]), ("if", 0, [X], []), A], []), A], [A])])
+        if infn:
+            out.append([("if", 0, [("if", 0, [X], []), A], []), A] if X[0] == "ret" else [A])
+            out.append([("for", 0, [A], [("if", 0, [X], []), A]), A] if X[0] == "ret" else [A])
+    return [number(b) for b in out]
+
+
 def enumerate_skeletons(max_nodes, depth, infn):
     for n in range(1, max_nodes + 1):
         for b in blocks(n, depth, False, infn):
